@@ -53,9 +53,9 @@ type smtpBehaviour struct {
 	Names   []string               `json:"names"`
 	Steps   []lineStep             `json:"steps"`
 	Timeout int                    `json:"timeout_ms"`
-	GoHooks bool                   `json:"gohooks"`  // Go listeners ahead of / behind the Lua host (first-answer rule, C17)
-	NoVisit bool                   `json:"novisit"`  // snapshot only the behaviour's own mailboxes (parallel sessions)
-	Group   string                 `json:"group"`    // behaviours with the same non-empty group share one server and run concurrently
+	GoHooks bool                   `json:"gohooks"` // Go listeners ahead of / behind the Lua host (first-answer rule, C17)
+	NoVisit bool                   `json:"novisit"` // snapshot only the behaviour's own mailboxes (parallel sessions)
+	Group   string                 `json:"group"`   // behaviours with the same non-empty group share one server and run concurrently
 }
 
 type smtpInput struct {
@@ -177,9 +177,9 @@ func smtpSnapshot(s storage.Store, known []string, visit bool) (boxes []SBox, er
 }
 
 type reply struct {
-	Cls   string   // ok | fail | closed | none (timeout) | malformed
+	Cls   string // ok | fail | closed | none (timeout) | malformed
 	Code  int
-	Text  string   // text of the last line
+	Text  string // text of the last line
 	Lines int
 	WF    bool
 	Raw   []string
